@@ -13,7 +13,10 @@ EXTENDS Naturals, Sequences, FiniteSets, TLC, Json
 
 CONSTANTS Secrets, Salts, Plains, Emit
 
-Ciphers == {"raw", "tagged"}
+\* "tagged2": the tagged multi-cipher built by its general constructor with ANOTHER default tag (the migration
+\* set-up): it writes under its own tag and reads both tags
+Ciphers == {"raw", "tagged", "tagged2"}
+Understands(rc, fmt) == fmt = rc \/ (rc = "tagged2" /\ fmt = "tagged")
 Paths == {"whole", "stream"}
 Tampers == {"none", "truncate", "flip", "empty"}
 Err == [kind |-> "err"]
@@ -25,14 +28,14 @@ Cfg == [cipher : Ciphers, secret : Secrets, salt : Salts, host : BOOLEAN]
 Key(c) == <<c.secret, c.host, c.salt>>
 Enc(c, n, p) == [kind |-> "enc", fmt |-> c.cipher, key |-> Key(c), nonce |-> n, plain |-> p, intact |-> TRUE]
 \* the tagged cipher can read its own format only; the raw cipher cannot read tagged bytes (4 extra leading bytes)
-Dec(c, term) == IF term.kind = "enc" /\ term.intact /\ term.fmt = c.cipher /\ term.key = Key(c)
+Dec(c, term) == IF term.kind = "enc" /\ term.intact /\ Understands(c.cipher, term.fmt) /\ term.key = Key(c)
                 THEN [kind |-> "data", plain |-> term.plain] ELSE Err
 
 \* The statement demands an error for another SECRET or SALT; it demands success for an equal
 \* host binding; a reader that differs from the writer ONLY in the host-binding flag is an
 \* unspecified corner (today the host id folded into the key is the empty string, so such a
 \* reader succeeds): expected outcome "any".
-OnlyHostDiffers(w, r) == w.cipher = r.cipher /\ w.secret = r.secret /\ w.salt = r.salt /\ w.host # r.host
+OnlyHostDiffers(w, r) == Understands(r.cipher, w.cipher) /\ w.secret = r.secret /\ w.salt = r.salt /\ w.host # r.host
 Expect(w, r, term) == IF OnlyHostDiffers(w, r) /\ term.kind = "enc" /\ term.intact THEN "any" ELSE Dec(r, term).kind
 
 Init == /\ wcfg \in Cfg /\ rcfg \in Cfg /\ plain \in Plains /\ wpath \in Paths /\ rpath \in Paths /\ tamper \in Tampers
@@ -56,8 +59,10 @@ Next == Write \/ Write2 \/ Tamper \/ Read \/ (phase = "done" /\ UNCHANGED vars)
 Spec == Init /\ [][Next]_vars
 
 SameReader == rcfg = wcfg
+\* a reader configured for migration reads what the default tagged cipher wrote
+Migration == (phase = "done" /\ wcfg.cipher = "tagged" /\ rcfg = [wcfg EXCEPT !.cipher = "tagged2"] /\ tamper = "none") => (result.kind = "data" /\ result.plain = plain)
 RoundTrip == (phase = "done" /\ SameReader /\ tamper = "none") => (result.kind = "data" /\ result.plain = plain)
-Integrity == (phase = "done" /\ (tamper # "none" \/ rcfg.secret # wcfg.secret \/ rcfg.salt # wcfg.salt \/ rcfg.cipher # wcfg.cipher)) => result = Err
+Integrity == (phase = "done" /\ (tamper # "none" \/ rcfg.secret # wcfg.secret \/ rcfg.salt # wcfg.salt \/ ~Understands(rcfg.cipher, wcfg.cipher))) => result = Err
 NeverWrongData == (phase = "done" /\ result.kind = "data") => result.plain = plain
 Secrecy == stored.kind = "enc" => stored # [kind |-> "plain", plain |-> plain]      \* the store never holds the plaintext term
 FreshNonce == second.kind = "enc" => second # stored
